@@ -38,7 +38,7 @@ func TestC18(t *testing.T) {
 		one(o, r)
 	}
 	if hooksSeen.Load() == 0 {
-		o.Fail("c18-hooks-missing", "no startFirst/startNext hook was ever passed: the instrumented sources are not in use")
+		o.Unchecked("c18-hooks", "no startFirst/startNext hook was ever passed: the runner's loop is not where the instrumenter expects it")
 	}
 	o.Stat("schedule_hooks_seen", hooksSeen.Load())
 	for i := 0; i < kit.N(3, 20); i++ {
@@ -52,9 +52,6 @@ var hooksSeen atomic.Int64
 // tree: a hook precedes the calls of startFirst and startNext in the runner's loop).
 func installHooks(lg *logT, firsts *atomic.Int64) {
 	hook.Set(func(p string) {
-		if !strings.HasPrefix(p, "Runner.Start.go#") {
-			return
-		}
 		switch {
 		case strings.HasSuffix(p, ":r.schedules.startFirst"):
 			hooksSeen.Add(1)
@@ -133,6 +130,10 @@ func restartWhileBusy(o *kit.Out, r *kit.Rand) {
 	lg.add("[4]")
 	rn.Stop()
 	lg.add("[5]")
+	if got == 0 && hooksSeen.Load() == 0 {
+		o.Unchecked("c18-hooks", "no startFirst/startNext hook was ever passed: the busy-restart script cannot see the runner go back to the first schedule")
+		return
+	}
 	if got == 0 {
 		o.Fail("restart-lost", fmt.Sprintf("Restart was called (and returned) while invocation %d of the function was executing; %d further invocations later the runner still had not gone back to the first schedule", holdAt, after.Load()))
 	}
@@ -299,7 +300,22 @@ func one(o *kit.Out, r *kit.Rand) {
 	o.Count("schedules", kit.I(ns))
 	o.Count("ending", map[bool]string{true: "stop", false: "cancel"}[useStop])
 	o.Count("held-invocation", kit.B(blockFirst))
-	o.Case("runner_trace_ok", []string{kit.I(ns), kit.List(evs...)}, "T", tags...)
+	hooked := false
+	invoked := false
+	for _, e := range evs {
+		if e == "[7]" || e == "[8]" {
+			hooked = true
+		}
+		if strings.HasPrefix(e, "[1,") {
+			invoked = true
+		}
+	}
+	if invoked && !hooked {
+		// the first schedule can only have been started by a startNext step: the hooks are not in place
+		o.Unchecked("c18-hooks", "the function was invoked but no startFirst/startNext hook was passed: the trace cannot be checked")
+	} else {
+		o.Case("runner_trace_ok", []string{kit.I(ns), kit.List(evs...)}, "T", tags...)
+	}
 	// one-sided timing: an invocation with schedule k's frequency never comes before that
 	// schedule's own first tick can have been delivered (Start + delays up to k + one period)
 	var delays, freqs []int64
